@@ -96,7 +96,7 @@ type Env struct {
 	// scheduler steps taken without any advance of the fake clock: current
 	// count and maximum over the run (a hot loop shows as a huge instant)
 	instantSteps, MaxInstantSteps int
-	frozenCh   chan struct{} // closed at teardown: every wait of the simulated network ends
+	frozenCh                      chan struct{} // closed at teardown: every wait of the simulated network ends
 }
 
 // Stats are per-run reach counters.
